@@ -452,16 +452,15 @@ def checkC19 (steps : List Step) : Option (Nat × String) := Id.run do
   let mut sts : List (Nat × SpecSt) := []
   for (i, I, r) in t do
     let s := (sts.lookup I).getD {}
-    let s' := specStep r.cfg.mac r.glob s r.frame (reportedOf r.fx)
+    let s' := specStep r.cfg.mac ((X.seesCap).getD 1000000) r.glob s r.frame (reportedOf r.fx)
     sts := upd sts I s'
     let all := ids.filterMap (fun J => sts.lookup J)
     let expL := expectedLive all
     let expB := expectedBytes X.stateRecBytes X.nodeBytes all
-    let inDomain := all.all (fun s => !s.overflow)
     let capOk := match X.seesCap with | some c => decide (r.live ≤ ids.length * (2 + c)) | none => false
     if !capOk then
       return some (i, s!"C19: {r.live} live allocations after a frame exceeds the fixed bound")
-    if inDomain && (r.live != expL || r.bytes != expB) then
+    if r.live != expL || r.bytes != expB then
       return some (i, s!"C19: ledger after the frame shows live={r.live} bytes={r.bytes}, retained state accounts for live={expL} bytes={expB}")
   return none
 
